@@ -1,7 +1,12 @@
 //! This module contains the [`TypeChecker`] and related utilities that deal
 //! with inferring and unifying types for the program.
 
-use std::collections::{HashSet, VecDeque};
+#[cfg(not(smlxl_storage_layout_extractor_verif))]
+use std::collections::HashSet;
+use std::collections::VecDeque;
+
+#[cfg(smlxl_storage_layout_extractor_verif)]
+use crate::verif::collections::HashSet;
 
 use itertools::Itertools;
 use state::type_variable::TypeVariable;
